@@ -15,13 +15,13 @@ func init() { register("C09", runC09) }
 
 // parameters through which an entry point is documented to write
 var documentedUpdaters = map[string][]string{
-	"(consensus.MidState).ApplyTransaction":             {"{consensus.MidState}"},
-	"(consensus.MidState).ApplyV2Transaction":           {"{consensus.MidState}"},
-	"(consensus.MidState).ApplyBlock":                   {"{consensus.MidState}"},
-	"(consensus.ApplyUpdate).UpdateElementProof":         {"{types.StateElement}"},
-	"(consensus.RevertUpdate).UpdateElementProof":        {"{types.StateElement}"},
-	"(gateway.V2BlockOutline).Complete":                 {"{gateway.V2BlockOutline}"},
-	"(gateway.V2BlockOutline).RemoveTransactions":       {"{gateway.V2BlockOutline}"},
+	"(consensus.MidState).ApplyTransaction":       {"{consensus.MidState}"},
+	"(consensus.MidState).ApplyV2Transaction":     {"{consensus.MidState}"},
+	"(consensus.MidState).ApplyBlock":             {"{consensus.MidState}"},
+	"(consensus.ApplyUpdate).UpdateElementProof":  {"{types.StateElement}"},
+	"(consensus.RevertUpdate).UpdateElementProof": {"{types.StateElement}"},
+	"(gateway.V2BlockOutline).Complete":           {"{gateway.V2BlockOutline}"},
+	"(gateway.V2BlockOutline).RemoveTransactions": {"{gateway.V2BlockOutline}"},
 }
 
 var outputParams = map[string]bool{"{types.Encoder}": true, "{types.Decoder}": true, "{types.Hasher}": true}
@@ -512,7 +512,10 @@ func c09TxnByTxn(c *Ctx, ge *GuardEngine) {
 	cs := ge.Calls(vb, nil, nil, nil, 0, map[*ssa.Function]int{})
 	gs, _ := ge.EntryGuards(VB)
 	ms := "call consensus.NewMidState({consensus.State})"
-	for _, r := range []struct{ id, validate, apply string; args []string }{
+	for _, r := range []struct {
+		id, validate, apply string
+		args                []string
+	}{
 		{"v1", "consensus.ValidateTransaction", "(consensus.MidState).ApplyTransaction", []string{ms, "{types.Block}.Transactions[*]", "{consensus.V1BlockSupplement}.Transactions[*]"}},
 		{"v2", "consensus.ValidateV2Transaction", "(consensus.MidState).ApplyV2Transaction", []string{ms, "call (types.Block).V2Transactions({types.Block})[*]"}},
 	} {
